@@ -59,6 +59,14 @@ fn same_bytes(spec: &Spec, a: &[u8], b: &[u8], tail: usize) -> bool {
         Spec::Compound { members } if members.len() == 1 => &members[0],
         s => s,
     };
+    // a compound of several packets: member by member (a FIR member may order its entries differently)
+    if let Spec::Compound { members } = inner {
+        let (ta, tb) = (crate::faults::tiles(a), crate::faults::tiles(b));
+        if ta != tb || ta.len() != members.len() || ta.iter().map(|t| t.1).sum::<usize>() != a.len() {
+            return false;
+        }
+        return members.iter().zip(ta.iter()).all(|(m, (o, l))| same_bytes(m, &a[*o..*o + *l], &b[*o..*o + *l], 0));
+    }
     if let Spec::FciOnly(Fci::Fir { .. }) = inner {
         if a.len() != b.len() || a.len() % 8 != 0 {
             return false;
@@ -146,6 +154,13 @@ fn append_check(spec: &Spec, key: u64, applicable: &mut bool) -> Option<(String,
                 e.push(img(&mk(vec![*en]))?.get(12..16)?.to_vec());
             }
             (img(&mk(entries.clone()))?, 12, e)
+        }
+        Spec::Compound { members } if members.len() >= 2 => {
+            let mut e = Vec::new();
+            for m in members {
+                e.push(img(m)?);
+            }
+            (img(spec)?, 0, e)
         }
         Spec::FciOnly(Fci::Sli { entries }) if entries.len() >= 2 => {
             let mut e = Vec::new();
@@ -384,6 +399,14 @@ impl Check for C20 {
                 1 => Spec::ItemOnly(gen_item(&mut wl, &gcfg)),
                 _ => Spec::FciOnly(gen_fci(&mut wl, &gcfg)),
             }
+        } else if wl.chance(1, 12) {
+            // add_packet is a list-adding call too: a compound of 2-4 packets (padding on the last only)
+            let n = wl.range(2, 4);
+            let mut members: Vec<Spec> = (0..n).map(|_| gen_packet(&mut wl, &gcfg)).collect();
+            for m in members.iter_mut().take(n - 1) {
+                strip_padding(m);
+            }
+            Spec::Compound { members }
         } else {
             gen_packet(&mut wl, &gcfg)
         };
